@@ -281,9 +281,9 @@ Definition toy_grind (fuel : nat) (c : coin Z) (gf : Z) := grind Z toy_merge_int
    (extension coefficients, f128 high half) and the rejection branch of draw is taken often:
      mode 0: plain                     mode 1: 1 of 4 words gets its high 32 bits set (>= M for f64/f62)
      mode 2: 1 of 8 words -> 2^64-1    mode 3: words -> 2^64-1 unless their low 10 bits are 0 (draw mostly Err)
-     mode 4: plain, except merge_with_int (below) *)
+     modes 4..7: plain, except merge_with_int (below) *)
 Definition wide_post (mode w : Z) : Z :=
-  if (mode =? 0) || (mode =? 4) then w
+  if (mode =? 0) || (4 <=? mode) then w
   else if mode =? 1 then (if Z.land w 3 =? 3 then Z.lor w 18446744069414584320 else w)
   else if mode =? 2 then (if Z.land w 7 =? 7 then 18446744073709551615 else w)
   else (if Z.land w 1023 =? 0 then w else 18446744073709551615).
@@ -296,8 +296,25 @@ Definition wide_merge (mode : Z) (a b : list Z) : list Z := wide_hash mode (wide
    T = 998 + seed.word0 mod 5, plain otherwise: the first admissible candidate of a draw sits at counter
    998..1002, i.e. right at the 1000-try limit of draw (off-by-one changes of the limit are observable). *)
 Definition wide_ones : list Z := [18446744073709551615; 18446744073709551615; 18446744073709551615; 18446744073709551615].
+(* modes 5 (f64), 6 (f62), 7 (f128) — "w5" in the harness, the mode is chosen by the coin's base field:
+   merge_with_int(seed, 1) and merge_with_int(seed, 2) are crafted digests whose coefficient slots (ELEMENT_BYTES
+   each) hold small admissible values 16*v + 5 + slot, except that for v = 1 the slot pos = (seed.word0 / 3) mod 3
+   holds a value of the GAP [M, 2^MODULUS_BITS): M, M + 1 or 2^bits - 1 (selected by seed.word0 mod 3).  So the
+   first candidate after every reseed has one coefficient in the gap (to be rejected iff that coefficient is part
+   of the drawn element type) and the second candidate is admissible.  Other values hash plainly. *)
+Definition gap_params (mode : Z) : Z * nat * Z :=
+  if mode =? 5 then (mod_f64, 8%nat, 64) else if mode =? 6 then (mod_f62, 8%nat, 62) else (mod_f128, 16%nat, 128).
+Definition gap_digest (mode : Z) (s : list Z) (v : Z) : list Z :=
+  let '(m, eb, bits) := gap_params mode in
+  let w0 := hd 0 s in
+  let g := if w0 mod 3 =? 0 then m else if w0 mod 3 =? 1 then m + 1 else 2 ^ bits - 1 in
+  let pos := (w0 / 3) mod 3 in
+  let slot j := if (v =? 1) && (j =? pos) then g else 16 * v + 5 + j in
+  let bytes := flat_map (fun j => to_le_bytes eb (slot j)) (if Nat.eqb eb 8 then [0; 1; 2; 3] else [0; 1]) in
+  map of_le_bytes (chunks 8 4 bytes).
 Definition wide_merge_int (mode : Z) (s : list Z) (v : Z) : list Z :=
   if (mode =? 4) && (v <? 998 + (hd 0 s) mod 5) then wide_ones
+  else if (5 <=? mode) && (1 <=? v) && (v <=? 2) then gap_digest mode s v
   else wide_hash mode (wide_dbytes s ++ to_le_bytes 8 v).
 Definition wide_hash_elems (mode : Z) (eb : nat) (elems : list Z) : list Z :=
   wide_hash mode (flat_map (to_le_bytes eb) elems).
